@@ -50,6 +50,10 @@ def task_events(hooks):
                     d["outs"].append((port, False, path))
                 elif k.startswith("c:"):
                     d["cores"] = int(k[2:])
+            if d["proc"] is None:
+                # the hook always writes the process name (verifTaskKeys): a record without it is a log line torn by the
+                # kill of a crash case (seen once in vp check #12, C03); it describes no task
+                continue
             by_gid[gid] = d
             by_dir[d["dir"]] = d
             order.append(d)
